@@ -203,6 +203,13 @@ def compare_unit(mods, unit, ans, src=None):
     except Exception as e:  # pylint: disable=broad-except
       d["text"] = "Print raises %r" % (e,)
     d.update(kw)
+    if info["frag"] and not is_class_body_comprehension_leak(unit, pytd) and not has_property_method(unit, pytd):
+      # the property's own oracle on the real code for this very unit (inside InFragment the theorems say it holds):
+      # a failure here is a failing input, reported by S as it stands
+      try:
+        d["oracle"] = oracle_unit(unit, mods)
+      except Exception as e:  # pylint: disable=broad-except
+        d["oracle"] = "oracle raises %r" % (e,)
     return d
 
   # real Verify vs model
@@ -330,8 +337,10 @@ def _worker_programs(args):
   guards = collections.Counter()
   units, lines, srcs = [], [], []
   dis, samples = [], []
-  for _ in range(n):
-    src = gen.program()
+  srcs = [gen.program() for _ in range(n)]
+  if seed == 0:
+    srcs = G.signature_matrix_programs() + srcs      # deterministic family, one worker runs it
+  for src in srcs:
     try:
       ret, text = io.generate_pyi(src, opts)
     except Exception as e:  # pylint: disable=broad-except
@@ -341,6 +350,18 @@ def _worker_programs(args):
     # the property itself on the emitted stub (this is data for the evidence; a failure outside the
     # characterised known findings is reported as a disagreement so that S runs)
     bad = oracle_text(text.rstrip("\n") if text.endswith("\n") else text, mods)
+    if bad is None:
+      # "the re-read declarations are structurally equal to what was printed": signature shapes of the printed unit
+      # (ret.ast) against the re-read ones — a lost `/` or `*` re-reads as a different, self-consistent signature
+      try:
+        a = sig_shapes(ret.ast)
+        b = sig_shapes(parser.parse_string(text, options=parser.PyiOptions(python_version=PY_VERSION)))
+        for k in sorted(a):
+          if k in b and a[k] != b[k]:
+            bad = "re-read signature of %s differs from the printed declaration: %r -> %r" % (k, a[k], b[k])
+            break
+      except Exception as e:  # pylint: disable=broad-except
+        bad = "re-reading the emitted stub raises %r" % (e,)
     if bad is not None:
       if is_class_body_comprehension_leak(ret.ast, pytd) or is_literal_bool_int_collapse(text.rstrip("\n")):
         stats["known-finding-region"] += 1
@@ -411,7 +432,7 @@ def correspond(res, rng, tier):
   # (b) emitted stubs
   nprog_jobs = 16 if quick else 48
   per_prog = 14 if quick else 30
-  pjobs = [(rng.randrange(1 << 30), per_prog) for _ in range(nprog_jobs)]
+  pjobs = [(0, per_prog)] + [(rng.randrange(1, 1 << 30), per_prog) for _ in range(nprog_jobs - 1)]
   with multiprocessing.Pool(ncpu) as pool:
     r_units = pool.map_async(_worker_units, jobs)
     r_progs = pool.map_async(_worker_programs, pjobs)
@@ -555,6 +576,12 @@ def search(res, rng, disagreements, pfail):
     return oracle_unit(u, mods) is not None
   # 0. the disagreeing units themselves (only those inside InFragment: outside it a failing round trip is
   #    documented behaviour, not a violation)
+  for d in disagreements:
+    if d.get("oracle") and "text" in d:
+      found.append({"unit_text": d["text"], "what": d["oracle"], "program": d.get("program"),
+                    "note": "in-fragment unit on which model and real code disagree; the property's oracle fails on the real code"})
+      if len(found) >= 2:
+        return found
   for d in disagreements:
     if d.get("kind", "").startswith("in-fragment") and "text" in d:
       bad = oracle_text(d["text"], mods)
